@@ -36,6 +36,31 @@ type unit struct {
 	Form    string `json:"form"`
 	Size    string `json:"size"`
 	Payload string `json:"payload"`
+	Pad     string `json:"pad"`
+}
+
+// padLens are the concrete lengths of the junk in front of the literal header of a "long" rejected line:
+// every position of the header relative to the first two boundaries of the server's 4096-byte read buffer.
+var (
+	padLens []int
+	padNext int64
+)
+
+func init() {
+	for _, b := range []int{4096, 8192} {
+		for d := -48; d <= 8; d++ {
+			padLens = append(padLens, b+d)
+		}
+	}
+}
+
+func (u unit) pre() (string, string) {
+	pre, post := prePost(u.Cmd)
+	if u.Pad == "long" {
+		n := padLens[int(atomic.AddInt64(&padNext, 1)-1)%len(padLens)]
+		pre += strings.Repeat("x", n) + " "
+	}
+	return pre, post
 }
 
 type startT struct {
@@ -278,7 +303,7 @@ func (p *peer) runUnit(u unit) *result {
 			return res
 		}
 	default:
-		pre, post := prePost(u.Cmd)
+		pre, post := u.pre()
 		data, announced := payloadBytes(u)
 		payload = data
 		switch u.Form {
@@ -449,11 +474,11 @@ func runCase(cs *caseT, enc *json.Encoder, emu *sync.Mutex, out *vh.Out, rng *ra
 	}
 	if alive {
 		// framing still in sync: a final NOOP gets its own tagged OK
-		res := p.runUnit(unit{Cmd: "NOOP", Form: "none", Size: "small", Payload: "benign"})
+		res := p.runUnit(unit{Cmd: "NOOP", Form: "none", Size: "small", Payload: "benign", Pad: "short"})
 		if res.Closed && res.Obs.Tagged == "NONE" && len(recs) > 1 && res.Smuggle == "" {
 			recs[len(recs)-1].(map[string]interface{})["closed"] = true
 		} else {
-			recs = append(recs, map[string]interface{}{"ev": "Unit", "u": unit{"NOOP", "none", "small", "benign"}, "obs": res.Obs, "closed": res.Closed, "stall": res.Stall})
+			recs = append(recs, map[string]interface{}{"ev": "Unit", "u": unit{"NOOP", "none", "small", "benign", "short"}, "obs": res.Obs, "closed": res.Closed, "stall": res.Stall})
 		}
 		if res.Smuggle != "" && p.origin != nil {
 			out.Mismatch(sigOf("smuggle", *p.origin), res.Smuggle, cs)
@@ -606,6 +631,10 @@ func main() {
 						u.Cmd = "NOOP"
 						u.Form, u.Size, u.Payload = "none", "small", "benign"
 					}
+				}
+				u.Pad = "short"
+				if (u.Cmd == "NOOP-lit" || u.Cmd == "XUNK-lit") && u.Form == "nonsync" && rng.Intn(2) == 0 {
+					u.Pad = "long"
 				}
 				cs.Units = append(cs.Units, u)
 			}
